@@ -3,4 +3,5 @@ package checks
 // Registry maps property ids to check entry points.
 var Registry = map[string]func(tier string){
 	"C01": C01,
+	"C16": C16,
 }
